@@ -44,6 +44,7 @@ FIXES = [
     ("C02", "fix: a string literal that ends in a lone backslash", "‛a\\ with dictionary compression off emitted stack.append(\"a\\\") (unterminated string literal); with compression on the backslash was silently dropped"),
     ("C02", "fix: the template of ¨…", "the template of ¨… had a positional argument after a keyword argument: every program containing ¨… failed to compile"),
     ("C02", "fix: incomplete \\x \\u \\U \\N escapes in string literals", "a back-quoted / two-character string containing a backslash followed by x, u, U or N without the digits / name Python requires (`\\x`, ‛\\u, `\\N{`) was lowered to a Python literal that does not compile (SyntaxError: truncated \\xXX escape); found by a sub-agent's differential corpus, reproduced by C02 after adding escape-sequence payloads"),
+    ("C13", "fix: LazyList slices with a negative start", "L[-2:] / L[-5:2] treated a negative START as an ordinary index: a one-item lazy list gave [] for [-2:] (a list gives the item), longer ones wrapped around; found when the seventh seed wave made me add slices with negative bounds to the observations"),
 ]
 
 
